@@ -31,14 +31,6 @@ type C15Case struct {
 	Go      *GoCase      `json:"go,omitempty"`    // fold mode
 }
 
-// gcVisitor forwards every event and forces a garbage collection at the given
-// event indices.
-type gcVisitor struct {
-	structform.ExtVisitor
-	at map[int]bool
-	n  *int
-}
-
 func newGCVisitor(v structform.Visitor, at []int) structform.Visitor {
 	if len(at) == 0 {
 		return v
@@ -47,10 +39,14 @@ func newGCVisitor(v structform.Visitor, at []int) structform.Visitor {
 	for _, i := range at {
 		m[i] = true
 	}
-	return &gcWrap{inner: structform.EnsureExtVisitor(v), at: m}
+	ev := structform.EnsureExtVisitor(v)
+	return &gcWrap{ExtVisitor: ev, inner: ev, at: m}
 }
 
+// gcWrap embeds the ExtVisitor: extended (typed array/map) calls are promoted
+// and reach the consumer natively; the basic events below tick the GC schedule.
 type gcWrap struct {
+	structform.ExtVisitor
 	inner structform.ExtVisitor
 	at    map[int]bool
 	n     int
